@@ -2,7 +2,7 @@
 internal call is judged too); the driver adds the idempotence differential on a copy."""
 from vmon import gen
 from vmon import oracle as orc
-from vmon.checks.common import fail
+from vmon.checks.common import fail, random_prefix, apply_prefix
 
 PROP = "C07"
 MONITORS = ["normalise"]
@@ -68,13 +68,16 @@ def make_case(rng, i, tier):
                 msgs.append(["ks", rng.choice(["C", "G", "F#"])])
             else:
                 msgs.append(["cc", c, 7, rng.randint(1, 100)])
-    return {"msgs": msgs, "paired": paired}
+    prefix = [op for op in random_prefix(rng, n=(1, 2)) if op["op"] in ("copy", "read_abs", "read_rel", "set_channel", "pad", "scale", "iter_rel_velocity_edit", "transpose")] \
+        if i % 5 == 4 else []
+    return {"msgs": msgs, "paired": paired, "prefix": prefix}
 
 
 def run(case, ctx):
     from vmon.monitors import LOG
     s = gen.raw_rel_seq(case["msgs"])
-    t0, d0 = orc.view_rel(s._rel)
+    s = apply_prefix(s, case.get("prefix", []))
+    t0, d0 = orc.view_rel(s.rel)
     ev0 = orc.events(t0)
     pr0, _ = orc.automaton(t0)
     kinds = set(p[0] for p in pr0)
